@@ -558,6 +558,7 @@ func runC11(r *ev.Run) {
 	}
 	runCancelRacesReply(r, "C11")
 	runAskerRestart(r, "C11", g.Fork())
+	runCloseUnserved(r, "C11", g.Fork())
 	// handlers that wait for their context, asked with short deadlines
 	for _, sf := range askStacks() {
 		idx++
